@@ -89,6 +89,14 @@ def corners(tier):
         if s.kind == "trigger" and s.tool in ("semgrep", "defectdojo") and s.batchable and s.id.endswith(".01"):
             argv, res = resultfiles.argv_and_files(s.tool, [resultfiles.relocate(s.tool, s.results, "code.py")])
             c[f"{s.tool}:{s.codemod.split('/')[-1]}"] = J(files={"code.py": s.input.encode()}, argv=["{dir}", "--codemod-include", s.codemod] + argv, results=res)
+    # faults (harness-injected): IF the run completes and writes its report, the report must still be consistent - a file that
+    # failed is not also reported as changed, every changeset names a file that exists.  A run that aborts is not judged here.
+    for cm, src in (("pixee:python/use-generator", GEN), ("pixee:python/harden-pickle-load", pick)):
+        short = cm.split("/")[-1]
+        for kind in ("write-oserror", "raise-entry", "raise-node", "delete-before"):
+            spec = {"file": "locked.py", "kind": kind, "at": "last"}
+            c[f"fault:{kind}:{short}"] = J(files={"locked.py": src, "pkg/free.py": src, "requirements.txt": b"requests\n"}, argv=["{dir}", "--codemod-include", cm + ",pixee:python/use-set-literal"],
+                                           pre_hook="cmverif.faults:install", pre_hook_arg={"faults": [spec]})
     c["default-set"] = J(files=default_set_project(), argv=["{dir}"])
     files, argv, res = sonar_set_project()
     c["sonar-set"] = J(files=files, argv=["{dir}"] + argv, results=res)
@@ -110,6 +118,8 @@ def corner_eval(arg):
 
 
 def _corner_judge(label, obs):
+    if label.startswith("fault:") and obs.exit != 0:
+        return [], 0, 0  # the run did not complete: nothing to validate (C10 owns what a fault may do to the run)
     if obs.exit != 0:
         return [(f"corner:{label}|exit-{obs.exit if isinstance(obs.exit, int) else 'exception'}", f"run did not complete: {obs.exit} {obs.stderr[-1][-300:]}")], 0, 0
     found = codetf.validate(obs.report, before=obs.before, after=obs.final, logs=obs.logs[-1])
@@ -183,6 +193,8 @@ def replay(rp):
         found = codetf.validate(lite["report"], before=before, after=lite["tree"], logs=lite["logs"])
         return (rp["kind"] not in {k for k, _ in found}), "\n".join(f"{k}: {d}" for k, d in found) or "report valid"
     job = corners("thorough")[rp["corner"]]
-    obs = drive.run_cli(job)
+    obs = drive.run_inproc(job) if job.pre_hook else drive.run_cli(job)
+    if obs.error:
+        raise core.HarnessError(obs.error)
     found, _, _ = _corner_judge(rp["corner"], obs)
     return (rp["sig"] not in {s for s, _ in found}), "\n".join(f"{s}: {d}" for s, d in found) or "report valid"
